@@ -126,6 +126,8 @@ def extra_extract_deps():
         pass
     for f in sorted(glob.glob(os.path.join(COQ, 'Lib/*Model.v'))):
         out.append('Lib/' + os.path.basename(f)[:-2] + '.vo')
+    for f in sorted(glob.glob(os.path.join(COQ, 'Inst/*Defs.v'))):
+        out.append('Inst/' + os.path.basename(f)[:-2] + '.vo')
     return out
 
 
